@@ -118,7 +118,8 @@ CHECKS.update({
                   "random walks with invalid calls injected are replayed, Trace_FimTopology requires an unchanged model",
         text="For every reachable topology of the bound TLC enumerates all failing calls (duplicate names at each scope, invalid "
              "names, unknown models, already-connected/stale interface as k-th argument, guardrail rejections); the real API must "
-             "raise the same exception class and leave the projected model identical.",
+             "raise the same exception class and leave the projected model identical; set_properties with an unknown / badly "
+             "typed property after good ones on every element kind.",
         note=TOPO_NOTE, design="DESIGN.md §3 C09"),
     "C10": dict(
         technique="Constraint tables PINNED as TLA+ constants in FimTopology (live tables compared cell by cell); TLC enumerates the "
@@ -126,7 +127,7 @@ CHECKS.update({
                   "restatement, and every configuration is built through the public API and validated; verdict and recorded site "
                   "judged by Trace_FimTopology",
         text="Two-sided check over service type x interface count x site placement (set partitions) x interface kinds x declared "
-             "site x constrained properties x (constructor | connect): validate() must accept exactly the configurations the pinned "
+             "site x constrained properties x (constructor | connect) and node type x (site given | missing | cleared): validate() must accept exactly the configurations the pinned "
              "tables allow and record the inferred site; a silent edit of the Python tables is reported as 'constraint table changed'.",
         note="0..3 interfaces quick / 0..4 thorough, <=3 sites; num_instances is NO_LIMIT for every type in the tables (checked), so "
              "the per-site instance limit has no configurations to exercise.",
@@ -155,7 +156,7 @@ CHECKS.update({
              "same and at different sites) and every permutation of service creation and several node orders, the attribute map, "
              "the decoded PDP request and the accounting summary must equal the model's tally; no other attribute keys; the same "
              "scripts are also run back to back in one process in two orders (no state carried between collections).",
-        note="Family of 80 (quick) / ~800 (thorough) builds; lifetime/subject/project attributes (pure pass-through) not modelled.",
+        note="Family of 110 (quick) / ~1000 (thorough) builds; lifetime/subject/project attributes (pure pass-through) not modelled.",
         design="DESIGN.md §3 C11"),
     "C12": dict(
         technique="TLA+ delegation/pool model (FimDelegation): pools->nodes->pools law by TLC; generated delegation lists and pool "
@@ -182,7 +183,8 @@ CHECKS.update({
         text="TLC checks on the model that any merge order yields the same combined model, unmerge removes exactly the "
              "contribution and snapshot/rollback restores; every history of the bound is run through merge_adm/unmerge_adm/"
              "snapshot/rollback of the real class (Neo4j query layer replaced by the in-memory store through the abstract "
-             "interface) and the decoded combined model compared at every step.",
+             "interface) and the decoded combined model compared at every step; get_delegations is observed in every state; "
+             "seeded random histories of 6-16 steps over the same families cover histories the model identifies.",
         note="The Cypher-only helpers of Neo4jCBMGraph are C19's; one recorded deviation (connections carry no provenance).",
         design="DESIGN.md §3 C14"),
     "C17": dict(
